@@ -516,6 +516,10 @@ def ssrc(s, ind=1):
 
 def fn_src(f):
     ps = ", ".join(f"{n}: {t.src()}" for n, t in f.params)
+    if getattr(f, "variadic", False):
+        # the last parameter (a slice type in the model) is written `name: ...T`
+        n, t = f.params[-1]
+        ps = ", ".join([f"{n_}: {t_.src()}" for n_, t_ in f.params[:-1]] + [f"{n}: ...{t.elem.src()}"])
     ret = "" if isinstance(f.ret, Void) else f" -> {f.ret.src()}"
     out = f"{f.name} :: ({ps}){ret} {{\n" + "".join(ssrc(s) for s in f.body)
     if f.tail is not None:
